@@ -190,8 +190,9 @@ def args_for(E, f, mem, over):
 
 def battery_binding(claim):
     """replay binding shared by the C03 obligations: live nodes (oracle_tu payment_outcome_battery): payments that are
-    claimed, failed by the recipient, failed mid-route, sent twice under one id, abandoned, and two-part payments with
-    one part failing; every payment must end in exactly one terminal event that matches what happened"""
+    claimed, failed by the recipient, sent twice under one id, abandoned and then claimed, failed then followed by a
+    claimed one, and a two-part payment whose first part fails while the second is still in flight (no terminal event
+    yet); the payer's events are asserted at every step by the library's test utilities"""
     c = claim if z3.is_expr(claim) else X.zbool(claim)
     return Binding('payment_outcome_battery', [z3.IntVal(1)], [z3.If(c, 0, 1)], parse=lambda t: [0 if t[0] == '0' else 1], line_fn=lambda v: '1',
                    which='oracle_tu', via_solver=True, domain=[(1, 1)], panic=False)
